@@ -366,7 +366,7 @@ def run_engines(c, rng):
 
 
 # ------------------------------------------------------------------------------------------------
-def compare_results(c, label, ra, rb, counter, wit, rel=3e-4, ab=1e-6, starved=None):
+def compare_results(c, label, ra, rb, counter, wit, rel=3e-4, ab=1e-6, starved=None, tanks=None):
     """EPANET vs EPANET: tight."""
     ta, tb = [int(t) for t in ra.node['head'].index], [int(t) for t in rb.node['head'].index]
     if ta != tb:
@@ -384,6 +384,15 @@ def compare_results(c, label, ra, rb, counter, wit, rel=3e-4, ab=1e-6, starved=N
             stop = i
             c.count('event_near_tie_between_runs')
             break
+    # ... and a tank hovering at a level limit opens and closes its links between report steps (see the engines monitor)
+    for tk in (tanks or []):
+        margin = max(0.02, 0.05 * (tk['max_level'] - tk['min_level']))
+        for i in range(min(stop, n_steps)):
+            if any(float(r_.node['pressure'][tk['name']].values[i]) <= tk['min_level'] + margin or
+                   float(r_.node['pressure'][tk['name']].values[i]) >= tk['max_level'] - margin for r_ in (ra, rb)):
+                stop = i
+                c.count('stopped_at_tank_limit')
+                break
     hrange = float(rb.node['head'].max().max() - rb.node['head'].min().min())      # a flow-unit constant off by 1e-4 moves heads by ~2e-4 of the head losses
     for grp, keys in (('node', ('head', 'pressure', 'demand')), ('link', ('flowrate', 'status'))):
         for key in keys:
@@ -455,7 +464,7 @@ def run_units(c, rng):
     for u, r in results.items():
         if u == base:
             continue
-        out = compare_results(c, 'inpfile_units %s vs %s' % (u, base), r, results[base], 'unit_values_compared', wit, starved=starved)
+        out = compare_results(c, 'inpfile_units %s vs %s' % (u, base), r, results[base], 'unit_values_compared', wit, starved=starved, tanks=spec['tanks'])
         if out is False:
             return
         if out is not True:
@@ -624,7 +633,7 @@ def run_reader(c, rng):
         if tr.exception is not None:
             c.violate('read_model_does_not_run', 'the model read from the file does not run in EPANET: %s' % str(tr.exception)[:200], **wit)
             return
-        out = compare_results(c, 'read-and-rewritten vs original text', tr.results, direct, 'reader_values_compared', wit)
+        out = compare_results(c, 'read-and-rewritten vs original text', tr.results, direct, 'reader_values_compared', wit, tanks=(spec['tanks'] if spec else None))
         if out is False:
             return
         if out is not True:
